@@ -172,6 +172,9 @@ def canon_model_msgs(msgs):
     return out
 
 
+SIGNAME = {2: "INT", 15: "TERM", 9: "KILL", 25: "XFSZ", 13: "PIPE"}
+
+
 def argv_of(scn, ops=None):
     return ["-n2"] + list(scn.get("xflags", [])) + list(scn["flags"]) + ["--"] + list(scn["ops"] if ops is None else ops)
 
@@ -190,19 +193,19 @@ def invoke(exe, argv, d, env_extra=None, timeout=20):
     res = {"rc": rc if (rc is not None and rc >= 0) else None,
            "sig": -rc if (rc is not None and rc < 0) else None, "hung": hung, "out": out, "err": err}
     res["outcome"] = "HANG" if hung else ("E%d" % res["rc"] if res["rc"] is not None else
-                                          "K" + {2: "INT", 15: "TERM", 9: "KILL"}.get(res["sig"], str(res["sig"])))
+                                          "K" + SIGNAME.get(res["sig"], str(res["sig"])))
     return res
 
 
-def run_real(exe, scn, d, env_extra=None, timeout=20):
-    """Materialise and run; returns dict(rc, sig, hung, out, err, listing)."""
+def run_real(exe, scn, d, env_extra=None, timeout=20, wrapper=()):
+    """Materialise and run; returns dict(rc, sig, hung, out, err, listing).  wrapper: argv prefix (e.g. prlimit)."""
     materialise(scn, d)
     env = {"PATH": os.environ.get("PATH", "/usr/bin:/bin"), "LC_ALL": "C"}
     if env_extra:
         env.update(env_extra)
     t0 = time.time_ns() - 2_000_000_000
     try:
-        p = subprocess.run([exe] + argv_of(scn), cwd=d, env=env, stdin=subprocess.DEVNULL,
+        p = subprocess.run(list(wrapper) + [exe] + argv_of(scn), cwd=d, env=env, stdin=subprocess.DEVNULL,
                            stdout=subprocess.PIPE, stderr=subprocess.PIPE, timeout=timeout)
         rc, hung, out, err = p.returncode, False, p.stdout, p.stderr
     except subprocess.TimeoutExpired as ex:
@@ -211,7 +214,7 @@ def run_real(exe, scn, d, env_extra=None, timeout=20):
            "sig": -rc if (rc is not None and rc < 0) else None, "hung": hung,
            "out": out, "err": err, "listing": real_listing(d, t0)}
     res["outcome"] = "HANG" if hung else ("E%d" % res["rc"] if res["rc"] is not None else
-                                          "K" + {2: "INT", 15: "TERM", 9: "KILL"}.get(res["sig"], str(res["sig"])))
+                                          "K" + SIGNAME.get(res["sig"], str(res["sig"])))
     return res
 
 
